@@ -823,6 +823,10 @@ func getUID(uid string) (uint32, error) {
 }
 
 func getGID(gid string) (uint32, error) {
+	if gid == "unset" || gid == "-1" {
+		return 4294967295, nil
+	}
+
 	v, err := strconv.ParseUint(gid, 10, 32)
 	if err != nil {
 		if !errors.Is(err, strconv.ErrSyntax) {
